@@ -5,6 +5,8 @@ import (
 	"fmt"
 	"os"
 	"sort"
+	"strconv"
+	"time"
 )
 
 var checks = map[string]func(*Ctx){}
@@ -51,6 +53,20 @@ func main() {
 		os.Exit(2)
 	}
 	ctx := NewCtx(prop, tier)
+	// overall deadline: a check that hangs outside a watched driver case (a Go-side sweep spinning inside the library)
+	// ends with "no verdict" instead of never ending (VERIF_CHECK_DEADLINE seconds; default 40 min quick, 4 h thorough)
+	go func() {
+		d := 40 * time.Minute
+		if tier == "thorough" {
+			d = 4 * time.Hour
+		}
+		if v, err := strconv.Atoi(os.Getenv("VERIF_CHECK_DEADLINE")); err == nil && v > 0 {
+			d = time.Duration(v) * time.Second
+		}
+		time.Sleep(d)
+		fmt.Printf("INFRA-ERROR: check %s exceeded its overall deadline of %s\nRESULT %s: infrastructure error(s); no verdict\n", prop, d, prop)
+		os.Exit(2)
+	}()
 	if replay != "" {
 		ctx.Replay(replay)
 		ctx.Finish()
